@@ -151,6 +151,11 @@ func ParseValidators(extra []byte) ([][]byte, error) {
 		return nil, sdkerrors.Wrap(ErrInvalidValidatorBytes, "(validatorsBytes % AddressLength) should bz zero")
 	}
 	n := len(validatorBytes) / addressLength
+	if n == 0 {
+		// an empty list would become the validator set (and is stored as an empty record that the
+		// module's own genesis validation rejects on export)
+		return nil, sdkerrors.Wrap(ErrInvalidValidatorBytes, "an epoch header carries at least one validator")
+	}
 	result := make([][]byte, n)
 	for i := 0; i < n; i++ {
 		address := make([]byte, addressLength)
